@@ -136,4 +136,33 @@ func init() {
 		},
 		Quick: 60, Thorough: 900, Real: commonReal, Simulated: commonSim,
 	}
+	Props["C14"] = &PropSpec{
+		ID: "C14", Level: "exploration",
+		Technique: "deterministic simulation: seeded operation sequences (1 task) and seeded schedules (2-3 tasks) on a bare FileCache over the simulated disk, invariants checked from the cache's white-box state and the disk's handle ledger",
+		Rule: "one case = 1-3 tasks issuing Open / Close(of a held handle) / use(ReadAt on a held handle) / Remove / Clear / SetCacheSize(0..3) / Len over 1-3 file names, <= 26 ops, initial capacity 0..3; invariants (after every op in the 1-task class, at the end and during the final release in the concurrent class): every lent handle is open and readable, every open handle is cached or lent, each entry's reference count equals the references lent out (never negative), no handle closed twice, no operation on a closed handle, cached <= capacity, open descriptors <= capacity + handles lent out, and after releasing everything and Clear no handle is open; " +
+			"non-trivial = at least 3 handle closes happened on the simulated disk (evictions/releases); distinct = distinct (plan hash, schedule hash)",
+		Nontrivial:  func(o *RunOut) bool { return o.Probes["fc-evictions"] >= 3 },
+		Assumptions: []string{"seeded sampling of sequences up to 26 ops (not exhaustive enumeration)", "handles and descriptors are those of the simulated disk"},
+		Quick:       40, Thorough: 600, Real: []string{"store/filecache rebuilt from /repo's working tree"}, Simulated: commonSim,
+	}
+	Props["C15"] = &PropSpec{
+		ID: "C15", Level: "exploration",
+		Technique: "deterministic simulation: seeded blockstore call sequences with cancelled contexts, flipped stored bytes and mismatching blocks against a multihash->bytes reference model",
+		Rule: "one case = 5-40 calls of Put / PutMany / Get / Has / GetSize / DeleteBlock / HashOnRead(true|false) / close+reopen over 2-7 blocks (sizes 0 nil/empty, 1, tens..thousands of bytes, > 64 KiB; sha2-256, sha2-512, blake2b-256; CIDv0 and CIDv1 raw / dag-pb / dag-cbor variants sharing one multihash); faults: 10% of calls with an already-cancelled context (must return context.Canceled and leave every file untouched), one stored byte flipped on disk, blocks whose CID does not match their data; oracle: model multihash -> stored bytes, IPLD not-found for absent blocks, duplicates silent, hash-on-read rejects mismatching bytes with ErrWrongHash when enabled and returns them unchecked when disabled; " +
+			"non-trivial = the case contains a cancelled call, a flipped byte, a mismatching block or a hash-on-read switch; distinct = distinct (plan hash, schedule hash)",
+		Nontrivial: func(o *RunOut) bool {
+			return o.Probes["cancelled-call"]+o.Probes["flip"]+o.Probes["mismatching-block"]+o.Probes["hash-on-read-set"] > 0
+		},
+		Assumptions: []string{"no schedule dimension: one task", "blocks are few (2-7) and real hashes, so bucket sharing comes from the 8/12-bit index sizes"},
+		Quick:       40, Thorough: 600, Real: commonReal, Simulated: commonSim,
+	}
+	Props["C08"] = &PropSpec{
+		ID: "C08", Level: "exploration",
+		Technique: "deterministic simulation: seeded operation sequences on index.Index over the simulated disk with the in-memory primary, location reference model plus structural checks of the bucket's record list after every operation",
+		Rule: "one case = 2-10 equal-length keys (bucket bytes + 2..6 bytes over an alphabet of 2-4 symbols, one or two buckets, index bits 8/12/16, 24 in thorough) and 4-40 operations Put(new key) / Update / Remove / Get(present and absent) / Flush, index file limits from 16 bytes to default, file cache 0/1; oracle: Get of a present key returns exactly its latest location, Get of an absent key returns nothing or the location of another present key; after every mutation the bucket's record list is strictly sorted, prefix-free, every stored prefix is a prefix of its own full key (fetched through its location), every present key has exactly one entry, and the list differs from the previous one only in the addressed key's entry (an insertion may lengthen at most one neighbour); " +
+			"non-trivial = at least one pair of keys shares a bucket and the first stored byte; distinct = distinct (plan hash, schedule hash)",
+		Nontrivial: func(o *RunOut) bool { return o.Probes["shared-prefix-pairs"] > 0 },
+		Assumptions: []string{"seeded random search, not exhaustive enumeration of the bounded space", "no schedule or fault dimension: one task"},
+		Quick:       40, Thorough: 600, Real: []string{"store/index (incl. record lists, flush, file roll-over), store/filecache, store/primary/inmemory rebuilt from /repo's working tree"}, Simulated: commonSim,
+	}
 }
